@@ -19,7 +19,8 @@
 //!                extra(complete: `U<0|1>P<n>` upload record exists / part files left; concurrent: `W<i>` index of
 //!                the writer whose bytes are stored, `Wnone`, `Wmixed`; else `-`)
 //!                phase(progress when the call ended / was dropped: `B0` body never polled, `B1` polled, `B2`
-//!                exhausted; complete_multipart_upload: `P<n>` part files already consumed)
+//!                exhausted; complete_multipart_upload: `P<n>` parts already consumed = assembled into the temporary
+//!                file, all of them once the object is in place (the part files themselves are removed only after the rename))
 //!                pdir(0|1: the destination's parent directory exists at the end)
 //!
 //! `drop-woken:p`   — poll the operation's future; after the p-th `Pending` wait until its waker fired (the awaited
@@ -470,9 +471,33 @@ fn run_single(
             .map(|rd| rd.flatten().filter(|e| e.file_name().to_string_lossy().starts_with(".upload_id-")).count())
             .unwrap_or(0)
     };
+    // sizes of the uploaded parts in list order, and the bytes the temporary file holds at the moment
+    let part_sizes: Vec<usize> = real_parts.iter().flatten().map(Vec::len).collect();
+    let tmp_len = || -> usize {
+        std::fs::read_dir(root)
+            .map(|rd| {
+                rd.flatten()
+                    .filter(|e| e.file_name().to_string_lossy().starts_with(".tmp."))
+                    .filter_map(|e| e.metadata().ok())
+                    .map(|m| m.len() as usize)
+                    .max()
+                    .unwrap_or(0)
+            })
+            .unwrap_or(0)
+    };
     let phase = || -> String {
         if op == "complete_multipart_upload" {
-            format!("P{}", nparts_uploaded.saturating_sub(part_files_left()))
+            // parts consumed so far: removed, or (the part files stay until the object is in place) assembled into the
+            // temporary file; all of them once the destination holds the new content
+            let removed = nparts_uploaded.saturating_sub(part_files_left());
+            let assembled = if disk.dest_state() == "new" {
+                nparts_uploaded
+            } else {
+                let have = tmp_len();
+                let mut sum = 0usize;
+                part_sizes.iter().take_while(|n| { sum += **n; have > 0 && sum <= have }).count()
+            };
+            format!("P{}", removed.max(assembled))
         } else {
             format!("B{}", progress.load(Ordering::SeqCst))
         }
